@@ -108,6 +108,10 @@ CHECKS = {
 
 NOT_YET = {}
 
+# thorough tier = the parts' thorough budgets times this factor (measured: 15-25 min per check on 16 idle cores)
+THOROUGH_SCALE = {"C01": 2, "C02": 3, "C03": 6, "C04": 4, "C05": 8, "C06": 4, "C07": 2, "C08": 3, "C09": 10, "C10": 5, "C11": 3,
+                  "C12": 2, "C13": 3, "C14": 4, "C15": 2, "C16": 2, "C17": 10, "C20": 3}
+
 def main():
     props = [json.loads(l) for l in open(os.path.join(VERIF, "properties.jsonl"))]
     checks, na = [], []
@@ -120,7 +124,7 @@ def main():
         checks.append({
             "property_id": pid,
             "quick_cmd": "./check %s --tier quick" % pid,
-            "thorough_cmd": "./check %s --tier thorough" % pid,
+            "thorough_cmd": "./check %s --tier thorough" % pid + (" --scale %d" % THOROUGH_SCALE[pid] if pid in THOROUGH_SCALE else ""),
             "evidence_file": "evidence/%s.json" % pid,
             "replay_cmd_template": "./check %s --replay {path}" % pid,
             "engine": "hypothesis-campaign",
